@@ -12,7 +12,7 @@ from ..report import Ctx
 from ..skelrules import check_skeleton
 
 PROP = "C01"
-FLOORS = {"C01-M1": 2, "C01-M2": 1, "C01-M3": 1, "C01-D1": 14}
+FLOORS = {"C01-M1": 3, "C01-M2": 1, "C01-M3": 1, "C01-D1": 14}
 
 EXPLANATION = (
     "Decided: (a) history independence of the per-pattern search table – the memo lives on the pattern object itself (M1), its value is a pure "
@@ -173,6 +173,12 @@ def rule_memo(ctx: Ctx) -> None:
             else:
                 ctx.violation("C01-M1", fi, node, f"additional writer of the search table {attr}: the table no longer depends on the pattern alone")
         value_fn = details
+        rets = [n for n in walk_no_nested(details.node) if isinstance(n, ast.Return)]
+        recv = unparse(guard.test.left)
+        if len(rets) == 1 and rets[0].value is not None and unparse(rets[0].value) == recv and details.body[-1] is rets[0]:
+            ctx.ok("C01-M1", details.where, f"returns the memoised table {recv}", rets[0], details)
+        else:
+            ctx.violation("C01-M1", details, rets[0] if rets else details.node, f"the memo function does not end by returning the table it guards ({recv})")
     # ---- M2: purity of the value
     pur = Purity(repo)
     if value is not None:
